@@ -46,7 +46,7 @@ TRUSTED = ["Model/C12_Model.v is hand-written; tied to boltons.socketutils by th
            "int() of a bytes object in base 10 (py_int models white space, sign, underscores), "
            "str() of a non-negative int (py_str = decimal notation)"]
 
-EXN = {"Timeout": "Timeout", "ConnectionClosed": "ConnectionClosed", "MessageTooLong": "MessageTooLong",
+EXN = {"ValueError": "ValueError", "Timeout": "Timeout", "ConnectionClosed": "ConnectionClosed", "MessageTooLong": "MessageTooLong",
        "NetstringInvalidSize": "NetstringInvalidSize", "NetstringMessageTooLong": "NetstringMessageTooLong",
        "NetstringProtocolError": "NetstringProtocolError"}
 
@@ -244,6 +244,17 @@ def run_bs(case):
                 out = _outcome(lambda: bs.buffer(bytes(op[1])))
             elif k == "flush":
                 out = _outcome(lambda: bs.flush())
+            elif k == "badflags":
+                # a malformed call: flags != 0 is refused with ValueError before anything happens
+                fl = 1 + idx % 3
+                try:
+                    if op[1]:
+                        (bs.sendall if idx % 2 else bs.send)(bytes(op[2]), fl)
+                    else:
+                        bs.recv(1 + idx % 2, flags=fl)
+                    raise TypeError("flags=%d accepted" % fl)
+                except ValueError:
+                    out = ["exn", "ValueError"]
             else:
                 raise ValueError(op)
             if k in ("send", "buffer", "flush"):
@@ -414,6 +425,8 @@ def c_op(op):
         return "Buffer %s" % cb(op[1])
     if k == "flush":
         return "Flush"
+    if k == "badflags":
+        return "BadFlags %s %s" % (cbool(op[1]), cb(op[2]))
     raise ValueError(op)
 
 
@@ -590,8 +603,10 @@ def gen_recv_ops(rng, stream, alpha, nops, want_recv=True):
             ops.append(["peek", n])
         elif r < 0.80:
             ops.append(["close", rand_msz(rng, max(0, rest))])
-        elif r < 0.93 and want_recv:
+        elif r < 0.91 and want_recv:
             ops.append(["recv", rng.choice([0, 1, 1, 2, 3, 5, 9])])
+        elif r < 0.93 and want_recv:
+            ops.append(["badflags", False, []])
         else:
             ops.append(["setmax", rng.choice([None, 0, 1, 2, 3, 4, 6, 10, 50])])
     return ops
@@ -613,6 +628,8 @@ def gen_send_ops(rng, nops):
             ops.append(["send", rand_payload(rng), rng.choice(["send", "sendall"])])
         elif r < 0.8:
             ops.append(["buffer", rand_payload(rng)])
+        elif r < 0.84:
+            ops.append(["badflags", True, rand_payload(rng)])
         else:
             ops.append(["flush"])
     return ops
